@@ -126,6 +126,9 @@ func Solve(obls []*Obligation, cfg SolverCfg) {
 }
 
 func solveOne(o *Obligation, idx int, dir string, cfg SolverCfg) {
+	if o.fc == nil {
+		return // decided mechanically, not by a solver
+	}
 	if o.Goal == "true" && o.Expect == "unsat" {
 		o.Result, o.Solver = "unsat", "trivial"
 		return
@@ -146,7 +149,7 @@ func solveOne(o *Obligation, idx int, dir string, cfg SolverCfg) {
 	if short > cfg.Timeout {
 		short = cfg.Timeout
 	}
-	if o.Kind == "vacuity" && !cfg.AllAgree {
+	if (o.Kind == "vacuity" || o.Kind == "cover") && !cfg.AllAgree {
 		// reachability probes: a model is welcome, "unknown" is acceptable, only "unsat" is a finding
 		r, out, dt := runSolver(ctx, solvers[0], file, 1500*time.Millisecond, cfg.Seed)
 		o.Time += dt
